@@ -693,7 +693,11 @@ impl<'a> World<'a> {
     fn tick(&mut self) {
         let ssrcs: Vec<u32> = self.ssrc_map.values().copied().collect();
         for s in ssrcs {
-            self.rx_a.verif_backdate(s, 61);
+            // a context that exists must age: if the monotonic clock cannot go back 61 s (machine just booted)
+            // the scenario cannot be executed - that is a tool error, never a verdict
+            if self.rx_a.verif_rx_state(s).is_some() && !self.rx_a.verif_backdate(s, 61) {
+                panic!("cannot back-date last_used by 61 s (uptime too short)");
+            }
             self.rx_c.verif_backdate(s, 61);
         }
     }
